@@ -6,13 +6,16 @@ import os
 VERIF = os.path.dirname(os.path.dirname(os.path.abspath(__file__)))
 ALL = ["C%02d" % i for i in range(1, 21)]
 
-CHECKS = {
-    "C09": dict(
-        technique="TLA+ spec (OrderedMap reference + LinkedSet implementation layer) model-checked by TLC; complete LTS replayed into Deb822; recorded histories validated by TLC (TraceOrderedMap)",
-        text="TLC explores the closed state space of the implementation-level model (hash table + doubly linked list + value dict) and checks that it refines the reference ordered mapping in every reachable state, i.e. for histories of any length over 3 names x 2 spellings x 2 values. The binding is two-way: every transition of the reference LTS plus long random walks are replayed into the real Deb822 class from four kinds of start object with all observables compared after each call, and histories recorded from the real class over 8 names x 4 spellings are validated by TLC against the same actions.",
-        note="Small-scope: model constants 3 names/2 spellings/2 values; concretization of names and values is sampled. Trusted: TLC, the projections list(d)/d[k]/dump(), the concretizer. Corrupted control traces must be rejected in every run.",
-        design="5 (C09)"),
-}
+import importlib
+import sys
+sys.dont_write_bytecode = True
+sys.path.insert(0, os.path.dirname(os.path.abspath(__file__)))
+CHECKS = {}
+for _p in ALL:
+    if os.path.exists(os.path.join(os.path.dirname(os.path.abspath(__file__)), "props", _p.lower() + ".py")):
+        _m = importlib.import_module("props." + _p.lower())
+        if getattr(_m, "MANIFEST", None):
+            CHECKS[_p] = _m.MANIFEST
 
 NOT_YET = "check not built yet in this round (specification planned in DESIGN.md section 5); not claimed"
 
